@@ -7,6 +7,7 @@ package main
 import (
 	"bytes"
 	"compress/flate"
+	"compress/gzip"
 	"encoding/binary"
 	"encoding/json"
 	"errors"
@@ -51,6 +52,8 @@ type wInput struct {
 	Partial    bool   `json:"partial"`      // the failing call accepts part of the data before reporting the error
 	Bam        bool   `json:"bam"`
 	DataSeed   uint64 `json:"data_seed"`
+	ExtraLen   int    `json:"extra_len,omitempty"` // bytes of user Extra in the writer's gzip header: large values make writeBlock fail with ErrBlockOverflow
+	BadName    bool   `json:"bad_name,omitempty"`  // a header Name outside Latin-1: gzip refuses every block
 }
 
 func (in wInput) shape() string {
@@ -407,7 +410,8 @@ type wRun struct {
 	rw       *recWriter
 	data     []byte   // the data stream handed to Write calls (bgzf) / the reference uncompressed stream (bam)
 	results  []string // per op: ok | err | closed | hang | panic
-	script   []string // model script tokens
+	script   []string // model script tokens (from the harness's own block-splitting simulation wSim)
+	concrete []string // the concrete script by payload sizes, for the Lean abstraction c12.abstract
 	chunks   []wChunk
 	hang     *hangInfo
 	panicked string
@@ -416,6 +420,7 @@ type wRun struct {
 	// bam only
 	headerLen    int
 	newWriterErr string
+	realChunks   int // chunks of the script up to its first Close (later Writes are refused with ErrClosed)
 	beforeLib    int
 	afterLib     []string
 }
@@ -495,6 +500,12 @@ func wRunScript(in wInput) *wRun {
 		r.panicked = "NewWriter: " + o.panicVal
 		return r
 	}
+	if in.ExtraLen > 0 {
+		bg.Extra = make([]byte, in.ExtraLen)
+	}
+	if in.BadName {
+		bg.Name = "\u0100"
+	}
 	busy := func() bool { return atomic.LoadInt32(&r.rw.inCall) > 0 }
 	sim := &wSim{}
 	pos := 0
@@ -514,17 +525,23 @@ func wRunScript(in wInput) *wRun {
 		case "w":
 			b := r.data[pos : pos+op.N]
 			pos += op.N
-			tok = fmt.Sprintf("w%d", sim.write(op.N))
+			if closedOK {
+				tok = "w0" // refused with ErrClosed: no block
+			} else {
+				tok = fmt.Sprintf("w%d", sim.write(op.N))
+			}
+			r.concrete = append(r.concrete, fmt.Sprintf("w%d", op.N))
 			r.rw.mu.Lock()
 			r.rw.offered += op.N
 			r.rw.mu.Unlock()
 			f = func() { _, err = bg.Write(b) }
 		case "f":
-			if sim.flush() {
+			if !closedOK && sim.flush() {
 				tok = "f1"
 			} else {
 				tok = "f0"
 			}
+			r.concrete = append(r.concrete, "f")
 			f = func() { err = bg.Flush() }
 		case "wt":
 			tok = "wt"
@@ -532,12 +549,16 @@ func wRunScript(in wInput) *wRun {
 		case "c":
 			if !closedOK {
 				sim.submit()
+				r.realChunks = len(sim.chunks)
 			}
 			closedOK = true
 			tok = "c"
 			f = func() { err = bg.Close() }
 		default:
 			panic("bad op " + op.K)
+		}
+		if op.K == "wt" || op.K == "c" {
+			r.concrete = append(r.concrete, op.K)
 		}
 		r.script = append(r.script, tok)
 		r.rw.event("C" + tok)
@@ -592,6 +613,9 @@ func wRunScript(in wInput) *wRun {
 		}
 	}
 	r.chunks = sim.chunks
+	if !closedOK {
+		r.realChunks = len(sim.chunks)
+	}
 	if r.hang == nil && closedOK {
 		// goroutines of the library must be gone after Close (allow them a moment to unwind)
 		for try := 0; try < 50; try++ {
@@ -616,6 +640,44 @@ func (r *wRun) endsWithEOF(ncalls int) bool {
 		all = append(all, c.p[:c.n]...)
 	}
 	return bytes.HasSuffix(all, wMagic)
+}
+
+// compressFails predicts, with compress/gzip itself, whether compressor.writeBlock refuses this block under the
+// run's header: gzip refuses the header (Name outside Latin-1), or the member is longer than 64 KiB.
+func (r *wRun) compressFails(p []byte) bool {
+	if r.in.BadName {
+		return true
+	}
+	if r.in.ExtraLen == 0 {
+		return false
+	}
+	var buf bytes.Buffer
+	gz, _ := gzip.NewWriterLevel(&buf, gzip.DefaultCompression)
+	gz.Header = gzip.Header{Extra: append([]byte("BC\x02\x00\x00\x00"), make([]byte, r.in.ExtraLen)...), OS: 0xff}
+	if _, err := gz.Write(p); err != nil {
+		return true
+	}
+	if err := gz.Close(); err != nil {
+		return true
+	}
+	return buf.Len()-1 >= 0x10000
+}
+
+// cfaults: the ids of the script's blocks whose compression fails.
+func (r *wRun) cfaults() []int {
+	if r.in.Bam || (r.in.ExtraLen == 0 && !r.in.BadName) {
+		return nil
+	}
+	var out []int
+	for i, ch := range r.chunks {
+		if i >= r.realChunks {
+			break
+		}
+		if r.compressFails(r.data[ch.off : ch.off+ch.n]) {
+			out = append(out, i)
+		}
+	}
+	return out
 }
 
 // labelled event trace for the model: U#i -> U<blk>:<ok>
@@ -814,6 +876,7 @@ func wRunBam(in wInput) *wRun {
 	r.rw.mu.Lock()
 	r.rw.offered = r.headerLen
 	r.rw.mu.Unlock()
+	r.concrete = append(r.concrete, fmt.Sprintf("w%d", r.headerLen), "f", "wt")
 	r.script = append(r.script, fmt.Sprintf("w%d", sim.write(r.headerLen)))
 	if sim.flush() {
 		r.script = append(r.script, "f1")
@@ -861,6 +924,7 @@ func wRunBam(in wInput) *wRun {
 			r.rw.mu.Lock()
 			r.rw.offered = end
 			r.rw.mu.Unlock()
+			r.concrete = append(r.concrete, fmt.Sprintf("w%d", end-start))
 			r.script = append(r.script, fmt.Sprintf("w%d", sim.write(end-start)))
 			f = func() { err = bw.Write(rec) }
 		case "c":
@@ -868,6 +932,7 @@ func wRunBam(in wInput) *wRun {
 				sim.submit()
 			}
 			closed = true
+			r.concrete = append(r.concrete, "c")
 			r.script = append(r.script, "c")
 			f = func() { err = bw.Close() }
 		default:
@@ -923,6 +988,9 @@ func wJudge(c *ctx, r *wRun, d *Driver, impl *[]string, ins *[]wInput) {
 	}
 	if r.hang != nil {
 		kind := "no-fault"
+		if in.ExtraLen > 0 || in.BadName {
+			kind = "after-compress-failure"
+		}
 		if in.FaultAt >= 0 {
 			kind = "after-write-fault"
 		}
@@ -939,7 +1007,7 @@ func wJudge(c *ctx, r *wRun, d *Driver, impl *[]string, ins *[]wInput) {
 		if !in.Bam {
 			ev, _, _, _ := r.trace()
 			dd := c.drv()
-			dd.add("c12.trace %d 0 %s %s %s", wcNat(in.WC), faultArg(in), joinOr(r.script), joinOr(ev))
+			dd.add("c12.tracec %d 0 %s %s %s %s", wcNat(in.WC), faultArg(in), intsOr(r.cfaults()), joinOr(r.script), joinOr(ev))
 			if out, err := dd.run(); err == nil && len(out) == 1 {
 				what += "; replay on the LTS of the unchanged protocol: " + out[0]
 			}
@@ -957,6 +1025,12 @@ func wJudge(c *ctx, r *wRun, d *Driver, impl *[]string, ins *[]wInput) {
 	if r.hang != nil || r.newWriterErr != "" && len(r.script) == 0 {
 		return
 	}
+	// the harness's script abstraction (wSim) against the Lean one (Hts.Model.WriterCompose.absScript)
+	if len(r.concrete) == len(r.script) && len(r.concrete) > 0 {
+		d.add("c12.abstract %s", joinOr(r.concrete))
+		*impl = append(*impl, joinOr(r.script))
+		*ins = append(*ins, in)
+	}
 	// trace inclusion
 	ev, out, eof, anyFail := r.trace()
 	cmd := "c12.trace"
@@ -970,6 +1044,12 @@ func wJudge(c *ctx, r *wRun, d *Driver, impl *[]string, ins *[]wInput) {
 		if r.newWriterErr != "" {
 			script = script[:3]
 		}
+	}
+	if cfs := r.cfaults(); !in.Bam && (in.ExtraLen > 0 || in.BadName) {
+		d.add("c12.tracec %d 1 %s %s %s %s", wcNat(in.WC), faultArg(in), intsOr(cfs), joinOr(script), joinOr(ev))
+		*impl = append(*impl, fmt.Sprintf("path out=%s eof=%s done=%s stuck=0 err=%s", intsOr(out), b01(eof), b01(done), b01(anyFail || len(cfs) > 0)))
+		*ins = append(*ins, in)
+		return
 	}
 	d.add("%s %d 1 %s %s %s", cmd, wcNat(in.WC), faultArg(in), joinOr(script), joinOr(ev))
 	*impl = append(*impl, fmt.Sprintf("path out=%s eof=%s done=%s stuck=0 err=%s", intsOr(out), b01(eof), b01(done), b01(anyFail)))
